@@ -1078,7 +1078,7 @@ func (q *MultiPhraseQuery) Searcher(i search.Reader, options search.SearcherOpti
 		field = options.DefaultSearchField
 	}
 
-	return searcher.NewSloppyMultiPhraseSearcher(i, q.terms, field, q.slop, q.scorer, options)
+	return searcher.NewSloppyMultiPhraseSearcherBoost(i, q.terms, field, q.slop, q.boost.Value(), q.scorer, options)
 }
 
 func (q *MultiPhraseQuery) Validate() error {
